@@ -275,17 +275,51 @@ func runC15(c *fw.C) {
 					firstChildOfLoadedCommon[nd.Links[0]] = true
 				}
 			}
-			heads := 0
+			// boundary nodes: common nodes that hang directly below a node exclusive to one version
+			boundary := map[string]bool{}
+			nBoundaryLinks := 0
+			for _, side := range []struct {
+				set, other map[string]bool
+				st         *doubles.Store
+			}{{ro, rn, p.OE.Store}, {rn, ro, e.Store}} {
+				for nme := range side.set {
+					if side.other[nme] {
+						continue
+					}
+					b, ok := side.st.Get(nme)
+					if !ok {
+						continue
+					}
+					nd, err := ref.Decode(e.Format, b)
+					if err != nil {
+						continue
+					}
+					for _, l := range nd.Links {
+						if l != "" && ro[l] && rn[l] {
+							boundary[l] = true
+							nBoundaryLinks++
+						}
+					}
+				}
+			}
+			heads, strayHeads := 0, 0
 			for nme := range common {
 				if !firstChildOfLoadedCommon[nme] {
 					heads++
+					if !boundary[nme] {
+						strayHeads++
+					}
 				}
 			}
 			E := len(expectedDiff(p.Old.M, p.New.M))
+			sameHeight := p.Old.Root.Height == p.New.Root.Height
 			ctx2["excess"] = "other_common_nodes"
-			if heads <= 2*E {
+			// same height: the traversals only fall out of step around a differing entry (<= 2 spine walks
+			// per entry); different heights: they are out of step at every boundary link
+			if strayHeads == 0 && ((sameHeight && heads <= 2*E) || (!sameHeight && heads <= nBoundaryLinks)) {
 				ctx2["excess"] = "leftmost_spines_of_common_subtrees"
 			}
+			ctx2["heights"] = map[bool]string{true: "equal", false: "differ"}[sameHeight]
 			c.MaxObs("max_spine_chains_per_differing_entry_x100", int64(heads*100/max1(E)))
 			c.Violation("C15.reads_bounded_by_change", ctx2, "%s loaded %d distinct nodes, %d of them common to both versions (in %d leftmost-spine chains; %d entry-less); the versions differ in D=%d nodes and %d entries, bound 2D+2=%d (old has %d nodes, new %d) | %s cfg{%s}", what, loaded, len(common), heads, pt, D, E, 2*D+2, len(ro), len(rn), p.Desc, cfg)
 		}
